@@ -133,6 +133,12 @@ class Report:
                 continue
             if fresh_standin and not (isinstance(ob.replay, dict) and ob.replay.get("reproduced")):
                 si0, fl0 = fresh_standin[0]
+                # prefer a failing input of the SAME function (run-time cross-check of the very clauses E1 discharges): concrete arguments for which
+                # the real function breaks its contract
+                short = (ob.function or "").split(":")[-1]
+                same = [(a, b) for a, b in fresh_standin if short and b.get("site") == f"contract-runtime:{short}"]
+                if same:
+                    si0, fl0 = same[0]
                 ob.replay = {"reproduced": True, "how": f"bounded stand-in `{si0.name}` run on the same working tree", "input": fl0.get("input"),
                              "observed": fl0.get("what"), "note": "end-to-end input that fails while this obligation is refuted; "
                              "the function-level counter-model is in `witness`"}
